@@ -14,8 +14,12 @@
 (*             extra time-outs in ticks]                                   *)
 (* Events, in program order (t = virtual time in ticks):                   *)
 (*   <<"burst", b>>                      call number b begins              *)
-(*   <<"send", seq, c, b, t, label>>     a datagram for command c of call  *)
-(*                                       b handed to the socket            *)
+(*   <<"send", seq, c, b, t, label, whole>>  a datagram for command c of   *)
+(*                                       call b handed to the socket;      *)
+(*                                       whole = 1: the data it carries is *)
+(*                                       the data the caller gave command  *)
+(*                                       c (compared byte by byte by the   *)
+(*                                       harness)                          *)
 (*   <<"select", timeout, t0, t1, rdy>>  select() entered at t0, left at   *)
 (*                                       t1                                *)
 (*   <<"recv", seq, rc, t, fb, fc>>      a datagram read from the socket   *)
@@ -69,6 +73,9 @@ Checks(e) ==
             mine == again /\ sq \in DOMAIN st.out /\ st.out[sq].cmd = cmd
         IN [Running           |-> Running,
             KnownCommand      |-> known,
+            \* "transmitted", "retransmitted": what goes out under a command's name is that command, with the
+            \* data the caller gave it - every time
+            WholeRequest      |-> Len(e) >= 7 => e[7] = 1,
             ClockMonotone     |-> tnow >= st.now,
             \* first transmission of a command
             WindowBound       |-> isNew => Cardinality(DOMAIN st.out) < Burst.window,
